@@ -556,12 +556,14 @@ def havoc_cursor(I, env):
 
 
 def token_loop(keep=()):
-    return dict(modifies=['code', 'cursor'], havoc_with={'code': havoc_code, 'cursor': havoc_cursor}, keep=tuple(keep))
+    # progress: every pass of a loop over tokens consumes at least one token (the text is finite: the compiler finishes)
+    return dict(modifies=['code', 'cursor'], havoc_with={'code': havoc_code, 'cursor': havoc_cursor}, keep=tuple(keep),
+                progress='tokens_consumed()')
 
 
 def cursor_loop(keep=()):
     """a loop that consumes tokens but emits no code"""
-    return dict(modifies=['cursor'], havoc_with={'cursor': havoc_cursor}, keep=tuple(keep))
+    return dict(modifies=['cursor'], havoc_with={'cursor': havoc_cursor}, keep=tuple(keep), progress='tokens_consumed()')
 
 
 TOKEN_LOOP = token_loop()
